@@ -216,6 +216,10 @@ func c16Scenario() *Scenario {
 		gov2("gov(ent:signers=S1,xyz,INVALID)", model.EntParams, ent("S1,!xyz", 1, 100)),
 		gov2("gov(ent:min=2of1,INVALID)", model.EntParams, ent("S1", 2, 100)),
 		gov2("gov(ent:signers=S1,<space>S2;min=2,INVALID)", model.EntParams, ent("S1,~S2", 2, 100)),
+		// valid updates inside proposals whose execution is rolled back as a whole: nothing may take effect
+		failing(gov2("gov(ent:signers=S2;min=1)+failing-msg", model.EntParams, ent("S2", 1, 100))),
+		failing(gov2("gov(wrk:fees=5/1/1;default=3;max=6)+failing-msg", model.WrkParams, anch(5, 1, 1, 3, 6))),
+		failing(gov2("gov(stream:fee=0.5)+failing-msg", model.StrParams, "0.500000000000000000")),
 		gov2("gov(wrk:fees=5/1/1;default=3;max=6)", model.WrkParams, anch(5, 1, 1, 3, 6)),
 		gov2("gov(wrk:max=2)", model.WrkParams, anch(24, 2, 3, 2, 2)),
 		gov2("gov(wrk:default=5>max=3,INVALID)", model.WrkParams, anch(24, 2, 3, 5, 3)),
